@@ -121,9 +121,10 @@ class HistoryGen:
     }
 
     def __init__(self, rnd: random.Random, allow=None, pool_size=10, no_holes_p=0.5, big_p=0.03, chunk_p=0.1,
-                 weights=None):
+                 weights=None, handles=1):
         self.rnd = rnd
-        self.allow = [o for o in (allow or self.ALL_OPS)]
+        self.handles = ['main'] + [f'h{i}' for i in range(2, handles + 1)]
+        self.allow = [o for o in (allow or self.ALL_OPS) if o in self.ALL_OPS]
         self.weights = dict(self.WEIGHTS)
         if weights:
             self.weights.update(weights)
@@ -247,4 +248,10 @@ class HistoryGen:
         raise AssertionError(name)
 
     def history(self, nsteps: int) -> list[dict]:
-        return [self.op() for _ in range(nsteps)]
+        out = []
+        for _ in range(nsteps):
+            op = self.op()
+            if len(self.handles) > 1 and op['op'] not in ('init_again',):
+                op['h'] = self.rnd.choice(self.handles)
+            out.append(op)
+        return out
